@@ -36,6 +36,7 @@ def configs(tier):
         add("ddr3x4-1p-K4-norefresh", refresh=False, K=4, **DDR3)
         add("ddr3x4-1p-K3-refresh-W8", refresh=True, K=3, window=8, **DDR3)
         add("sdr-1p-K5-reads-norefresh", refresh=False, K=5, rd_only=True, **SDR)
+        add("sdr-1p-K3-buffered-d4-norefresh", refresh=False, K=3, buffered=True, depth=4, **SDR)
         add("ddr3x4-c11-1p-K3-norefresh", refresh=False, K=3, rowbits=13, cols=(0, 1024), **dict(DDR3, colbits=11))
         add("sdr-1p-K2-zqcs-refresh-W8", refresh=True, K=2, window=8, tzqcs=3, zqcs_period=120, **SDR)
     else:
